@@ -29,10 +29,11 @@ THEOREMS = {"Proofs.Props.C14": ["MsPack.Cab.C14_never_hangs"],
                                            "MsPack.CabFuel.C04_cab_session_stored_mszip", "MsPack.CabFuel.C04_cab_session_stored_mszip_single",
                                            "MsPack.CabFuel.C04_cab_extract_no_hang_partial", "MsPack.CabFuel.C04_cab_session_no_hang_partial"],
             "Proofs.Props.C04CabSession": ["MsPack.CabFuel.zipSticky", "MsPack.CabFuel.callOk_full", "MsPack.CabFuel.freshOk_full", "MsPack.CabFuel.C04_cab_extract_no_hang",
-                                           "MsPack.CabFuel.C04_cab_session_no_hang", "MsPack.CabFuel.C04_cab_session_no_hang_single", "MsPack.Zip.ZipSticky.decompress_sticky"]}
+                                           "MsPack.CabFuel.C04_cab_session_no_hang", "MsPack.CabFuel.C04_cab_session_no_hang_single", "MsPack.Zip.ZipSticky.decompress_sticky"],
+            "Proofs.Props.C04ChmSession": ["MsPack.Chm.c04_lzxCall", "MsPack.Chm.C04_chm_extract_no_hang_inv", "MsPack.Chm.C04_chm_session_no_hang", "MsPack.Chm.C04_chm_session_fresh_no_hang"]}
 ASSUMPTIONS = ["wall-clock performance is not covered; the bound is in instrumented edges (implementation) and in recursion measures (model)",
                "the models' loops are total functions with a fuel argument; theorems (C04Loops): with the fuel the entry points pass, the out-of-fuel outcome is unreachable for every input - LZSS/SZDD/KWAJ (all five methods, pure and effect models), the OAB container and copy loops, CHM header reading, fast_find (descent and walk bounded by the visits counter), section-0 extraction, the KWAJ LZH, MSZIP and LZX decoders over any finite source (measure: real bits not yet consumed), the CAB stored-folder loop, feeder and scanner; each needs a measure that every iteration decreases, so a loop that can spin breaks its theorem; "
-               "cabd_extract as a whole (C04CabExtract): a fuel invariant established by the fresh folder state and kept by every call gives 'no session of extract() calls ever runs out of fuel' - carried out for ALL methods (C04CabSession): the three hypotheses of the skeleton are discharged (MSZIP's sticky error in strict and repair mode; Quantum's and LZX's measures do not grow over an OK call), so C04_cab_session_no_hang: any list of extract() calls, any methods, any order, failing calls included, from a fresh decompressor never runs out of fuel - for folders inside one cabinet with no condition on the files (C04_cab_session_no_hang_single), for chains under a static condition on the MODEL's fuel (its bound can genuinely fall short for sets re-entering one file many times: an artefact of the model, not of the C); premise DECOMPBUF >= 1 (cabd_param refuses less than 4); left as hypotheses: that the CAB decoders' fuel (chainFuel) exceeds the bits the feeder can still deliver (the first bound, counting every file once, was too small for a set that re-enters one file many times: found by this proof work, the model's bound was raised), the cached-decoder buffer bound for CHM section 1; Quantum (C04Qtm): the decoder cannot hang over any finite source for every state a session started by qtmd_init reaches (invariant Sync: o_ptr <= o_end = window_posn, 1 <= frame_todo <= 32768, kept by every call) and every request below 2^32 - 2^21 (renormalisation bounded by 16 rounds, every symbol advances window_posn, block-loop measure 2*(out_bytes - stored) + [window full]); the request bound is sharp: C04_qtm_stuck_4G shows the model spinning for out_bytes = 2^32, and so does qtmd.c (observation O3, DESIGN 0.4: frame_end is an unsigned int; not reachable through cabd, which caps requests below 2^31)",
+               "cabd_extract as a whole (C04CabExtract): a fuel invariant established by the fresh folder state and kept by every call gives 'no session of extract() calls ever runs out of fuel' - carried out for ALL methods (C04CabSession): the three hypotheses of the skeleton are discharged (MSZIP's sticky error in strict and repair mode; Quantum's and LZX's measures do not grow over an OK call), so C04_cab_session_no_hang: any list of extract() calls, any methods, any order, failing calls included, from a fresh decompressor never runs out of fuel - for folders inside one cabinet with no condition on the files (C04_cab_session_no_hang_single), for chains under a static condition on the MODEL's fuel (its bound can genuinely fall short for sets re-entering one file many times: an artefact of the model, not of the C); premise DECOMPBUF >= 1 (cabd_param refuses less than 4); left as hypotheses: that the CAB decoders' fuel (chainFuel) exceeds the bits the feeder can still deliver (the first bound, counting every file once, was too small for a set that re-enters one file many times: found by this proof work, the model's bound was raised), CHM (C04ChmSession): the cached-decoder buffer bound that the per-call theorem assumed is now an invariant (the cached LZX decoder has buffered no more input than the file delivered up to the saved inoffset) which a fresh instance has and every extract call of either section, with any outcome, keeps: no session of extract() calls on opened headers ever runs out of fuel (C04_chm_session_fresh_no_hang); Quantum (C04Qtm): the decoder cannot hang over any finite source for every state a session started by qtmd_init reaches (invariant Sync: o_ptr <= o_end = window_posn, 1 <= frame_todo <= 32768, kept by every call) and every request below 2^32 - 2^21 (renormalisation bounded by 16 rounds, every symbol advances window_posn, block-loop measure 2*(out_bytes - stored) + [window full]); the request bound is sharp: C04_qtm_stuck_4G shows the model spinning for out_bytes = 2^32, and so does qtmd.c (observation O3, DESIGN 0.4: frame_end is an unsigned int; not reachable through cabd, which caps requests below 2^31)",
                "K and C are calibration constants (edges per byte), not derived"]
 RULE = ("per API call: edges executed vs. K*(sum of input file sizes + declared output + 4096); malformed variants of generated archives, fixtures, pathological constructions; "
         "non-trivial = a call that executed at least 1000 edges; distinct by archive bytes + op")
